@@ -383,6 +383,12 @@ def run_recorded(case):
     solver.update = rec_update
     try:
         states, dts = drivers.hand_step(solver, 20)
+        # further stages on the same solver (the run loop after thermalisation): the arrays of the last step are handed on as they
+        # are, step counter and clock restart; an odd and an even number of steps before the restart
+        st2, dts2 = drivers.hand_step(solver, 5, start=states[-1], dt0=dts[-1])
+        st3, dts3 = drivers.hand_step(solver, 4, start=st2[-1], dt0=dts2[-1])
+        st4, dts4 = drivers.hand_step(solver, 3, start=st3[-1], dt0=dts3[-1])
+        res.count("recorded_stage_restarts", 3)
         # calls that do not continue the previous one (the update is a function of the state it is handed): an earlier state
         # submitted again, and an unrelated order parameter with an exact zero and |psi| > 1
         t_now = float(np.sum(dts))
